@@ -130,17 +130,20 @@ IsDoubleLP(p) ==
    /\ \A k \in 1..NC(p) : BRIsDouble(p.lo[k]) /\ BRIsDouble(p.up[k]) /\ BRIsDouble(p.obj[k])
 
 \* C04: structural validity of a basis for an LP
+\* "fixed" = bounds equal up to the solver's zero tolerance: SPxSolver::change*Status marks a variable FIXED when
+\* EQ(lower, upper, epsilon), epsilon = real:epsilon_zero (1e-16 by default, at most 1e-12 in the workloads)
+SameBound(a, b) == BRIsFinite(a) /\ BRIsFinite(b) /\ BRLeq(BRAbs(BRSub(a, b)), BRMulPow2("1", -39))
 ColStatusOK(lp, j, s) ==
    CASE s = ON_UPPER -> BRIsFinite(lp.up[j])
      [] s = ON_LOWER -> BRIsFinite(lp.lo[j])
-     [] s = FIXED    -> BRIsFinite(lp.lo[j]) /\ lp.lo[j] = lp.up[j]
+     [] s = FIXED    -> SameBound(lp.lo[j], lp.up[j])
      [] s = ZERO     -> ~BRIsFinite(lp.lo[j]) /\ ~BRIsFinite(lp.up[j])
      [] s = BASIC    -> TRUE
      [] OTHER -> FALSE
 RowStatusOK(lp, i, s) ==
    CASE s = ON_UPPER -> BRIsFinite(lp.rhs[i])
      [] s = ON_LOWER -> BRIsFinite(lp.lhs[i])
-     [] s = FIXED    -> BRIsFinite(lp.lhs[i]) /\ lp.lhs[i] = lp.rhs[i]
+     [] s = FIXED    -> SameBound(lp.lhs[i], lp.rhs[i])
      [] s = ZERO     -> ~BRIsFinite(lp.lhs[i]) /\ ~BRIsFinite(lp.rhs[i])
      [] s = BASIC    -> TRUE
      [] OTHER -> FALSE
